@@ -278,3 +278,86 @@ func (p *Prog) KillsField(ins ssa.Instruction, f *types.Var) bool {
 	}
 	return false
 }
+
+// StaticCallSites returns the call instructions in module code that call fn
+// statically (plain calls only). A nil element means fn is also used in a
+// way whose calling context is unknown (go / defer / taken as a value), so
+// that callers cannot be enumerated exhaustively.
+func (p *Prog) StaticCallSites(fn *ssa.Function) []ssa.Instruction {
+	p.scsOnce.Do(func() {
+		p.scs = map[*ssa.Function][]ssa.Instruction{}
+		for _, f := range p.ModuleFunctions() {
+			Instrs(f, func(ins ssa.Instruction) {
+				switch x := ins.(type) {
+				case *ssa.Call:
+					if g := x.Call.StaticCallee(); g != nil {
+						p.scs[g] = append(p.scs[g], ins)
+					}
+				case *ssa.Go:
+					if g := x.Call.StaticCallee(); g != nil {
+						p.scs[g] = append(p.scs[g], nil)
+					}
+				case *ssa.Defer:
+					if g := x.Call.StaticCallee(); g != nil {
+						p.scs[g] = append(p.scs[g], nil)
+					}
+				}
+				for _, op := range ins.Operands(nil) {
+					if *op == nil {
+						continue
+					}
+					if g, ok := (*op).(*ssa.Function); ok {
+						if ci, isCall := ins.(ssa.CallInstruction); isCall && ci.Common().Value == ssa.Value(g) {
+							continue
+						}
+						p.scs[g] = append(p.scs[g], nil)
+					}
+				}
+			})
+		}
+	})
+	return p.scs[fn]
+}
+
+// InstrsDeep visits the instructions of fn in block order and, at each plain
+// call to a module function with a body (same package as fn unless anyPkg),
+// the callee's instructions (to the given depth) before continuing: an
+// "inlined view" for table extractors, so that moving a block into a helper
+// does not hide it.
+func (p *Prog) InstrsDeep(fn *ssa.Function, depth int, anyPkg bool, f func(ssa.Instruction)) {
+	seen := map[*ssa.Function]bool{}
+	var walk func(g *ssa.Function, d int)
+	walk = func(g *ssa.Function, d int) {
+		if seen[g] {
+			return
+		}
+		seen[g] = true
+		defer delete(seen, g)
+		for _, b := range g.Blocks {
+			for _, ins := range b.Instrs {
+				f(ins)
+				if d <= 0 {
+					continue
+				}
+				call, ok := ins.(*ssa.Call)
+				if !ok {
+					continue
+				}
+				callee := call.Call.StaticCallee()
+				if callee == nil {
+					if mc, ok := call.Call.Value.(*ssa.MakeClosure); ok {
+						callee, _ = mc.Fn.(*ssa.Function)
+					}
+				}
+				if callee == nil || callee.Blocks == nil || !InModule(FnPkgPath(callee)) {
+					continue
+				}
+				if !anyPkg && FnPkgPath(callee) != FnPkgPath(fn) {
+					continue
+				}
+				walk(callee, d-1)
+			}
+		}
+	}
+	walk(fn, depth)
+}
